@@ -76,9 +76,9 @@ func loop(ctx context.Context, v any, i int, path []string, new *any, action int
 	case i < len(path):
 		switch v := v.(type) {
 		case []any:
-			pathI, err := strconv.Atoi(path[i])
-			if err != nil {
-				return nil, fmt.Errorf("%s '%s': %s", errExpectingAnArrayIndex, path[i], err)
+			pathI, convErr := strconv.Atoi(path[i])
+			if convErr != nil {
+				return nil, fmt.Errorf("%s '%s': %s", errExpectingAnArrayIndex, path[i], convErr)
 			}
 
 			if pathI < 0 {
@@ -100,9 +100,9 @@ func loop(ctx context.Context, v any, i int, path []string, new *any, action int
 			}
 
 		case []string:
-			pathI, err := strconv.Atoi(path[i])
-			if err != nil {
-				return nil, fmt.Errorf("%s '%s': %s", errExpectingAnArrayIndex, path[i], err)
+			pathI, convErr := strconv.Atoi(path[i])
+			if convErr != nil {
+				return nil, fmt.Errorf("%s '%s': %s", errExpectingAnArrayIndex, path[i], convErr)
 			}
 
 			if pathI < 0 {
@@ -128,9 +128,9 @@ func loop(ctx context.Context, v any, i int, path []string, new *any, action int
 			}
 
 		case []int:
-			pathI, err := strconv.Atoi(path[i])
-			if err != nil {
-				return nil, fmt.Errorf("%s '%s': %s", errExpectingAnArrayIndex, path[i], err)
+			pathI, convErr := strconv.Atoi(path[i])
+			if convErr != nil {
+				return nil, fmt.Errorf("%s '%s': %s", errExpectingAnArrayIndex, path[i], convErr)
 			}
 
 			if pathI < 0 {
@@ -156,9 +156,9 @@ func loop(ctx context.Context, v any, i int, path []string, new *any, action int
 			}
 
 		case []float64:
-			pathI, err := strconv.Atoi(path[i])
-			if err != nil {
-				return nil, fmt.Errorf("%s '%s': %s", errExpectingAnArrayIndex, path[i], err)
+			pathI, convErr := strconv.Atoi(path[i])
+			if convErr != nil {
+				return nil, fmt.Errorf("%s '%s': %s", errExpectingAnArrayIndex, path[i], convErr)
 			}
 
 			if pathI < 0 {
@@ -184,9 +184,9 @@ func loop(ctx context.Context, v any, i int, path []string, new *any, action int
 			}
 
 		case []bool:
-			pathI, err := strconv.Atoi(path[i])
-			if err != nil {
-				return nil, fmt.Errorf("%s '%s': %s", errExpectingAnArrayIndex, path[i], err)
+			pathI, convErr := strconv.Atoi(path[i])
+			if convErr != nil {
+				return nil, fmt.Errorf("%s '%s': %s", errExpectingAnArrayIndex, path[i], convErr)
 			}
 
 			if pathI < 0 {
